@@ -899,12 +899,16 @@ def extra_c01(pid, tier, seed, workdir, known, write_replay):
             unknown = []
             for code, msg, srcline in msgs:
                 hit = next((sig for pat, sig in C01_PATTERNS if re.search(pat, msg)), None)
+                if hit is None and re.search(r"cannot find type", msg) and re.match(r"\s*impl \w+ \{", srcline):
+                    hit = "rustc#vertex-input-struct-not-emitted"
                 if hit:
                     sigs.add(hit)
                 elif not any(re.search(p, msg) for p in C01_SECONDARY):
                     unknown.append(f"{code} {msg} @ {srcline}"[:160])
-            if unknown and not sigs:
-                items.append(("rustc#unclassified", f"option set {opt}: rustc rejects the module: {unknown[0]}", cid, True))
+            if not sigs:
+                # a rejected module is reported whatever its messages look like (follow-up messages alone do not excuse it)
+                first = unknown[0] if unknown else "; ".join(f"{c} {m_} @ {l_}" for c, m_, l_ in msgs[:2])[:260]
+                items.append(("rustc#unclassified", f"option set {opt}: rustc rejects the module: {first}", cid, True))
             for s_ in sigs:
                 counts[s_] = counts.get(s_, 0) + 1
                 items.append((s_, f"option set {opt}: rustc rejects the module: " + "; ".join(f"{c} {m_}" for c, m_, _ in msgs[:2])[:260], cid, True))
